@@ -321,6 +321,51 @@ Qed.
 End Central.
 
 (* ---------- reader histories ---------- *)
+(* ---------- lastRuneSize invariant through the other operations ---------- *)
+Lemma reader_step_L S wt op s lrs o s' lrs' : InvS S s -> LInv S s lrs -> no_unrune op = true -> is_reset op = false ->
+  reader_step wt op (s, lrs) = Some (o, (s', lrs')) -> LInv S s' lrs'.
+Proof.
+  intros HS HL. pose proof HS as (HI & _).
+  unfold reader_step, no_unrune, is_reset.
+  destruct op as [z|b|l]; try discriminate.
+  destruct l as [|[tag| |] l]; try discriminate.
+  destruct tag as [|p|p]; try discriminate.
+  repeat (destruct p as [p|p|]; try discriminate).
+  all: intros Hrf; try (vm_compute in Hrf; discriminate Hrf).
+  all: destruct l as [|[n| |] [|? ?]]; try discriminate.
+  all: intros Hnr; try discriminate Hnr.
+  all: try (destruct (rd_slice 10 s) as [[line0 ?] ?] eqn:E0).
+  - (* 9 *) destruct wt; [destruct (rd_writeto_wt s) as [[d e] s1]|destruct (rd_writeto s) as [[d e] s1]];
+      intros H; inversion H; subst; intros Hneg; lia.
+  - (* 5 *) destruct (rd_line s) as [[[d pre] e] s1] eqn:E. intros H; inversion H; subst.
+    destruct line0 as [|x l0]; [|intros Hneg; lia].
+    pose proof (rd_line_empty s _ _ _ _ _ _ E0 E) as ->.
+    destruct (rd_slice_S S 10 s [] _ _ HS E0) as (_ & [_ Hd2] & _). change (blen []) with 0 in Hd2.
+    apply (keep_LInv S s _ lrs HL). apply (rd_slice_keep 10 s _ _ _ HI E0). lia.
+  - (* 3 *) destruct (rd_unread s) as [e s1]. intros H; inversion H; subst. intros Hneg; lia.
+  - (* 10 *) destruct (rd_rune s) as [[[[r0 size] e] s1] l1] eqn:E. intros H; inversion H; subst.
+    apply (rd_rune_L S s r0 size e s' lrs' HS E).
+  - (* 6 *) destruct (rd_peek n s) as [[d e] s1] eqn:E. intros H; inversion H; subst.
+    apply (keep_LInv S s s' lrs' HL). apply (rd_peek_keep n s d e s' E).
+  - (* 8 *) destruct (rd_bytes n s) as [[d e] s1] eqn:E. intros H; inversion H; subst.
+    unfold lrs_after. destruct (rtotal s' =? rtotal s) eqn:Et; [|intros Hneg; lia].
+    apply (keep_LInv S s s' lrs HL). apply (rd_bytes_loop_keep S _ n s d e s' HS E). lia.
+  - (* 4 *) destruct (rd_slice n s) as [[d e] s1] eqn:E. intros H; inversion H; subst.
+    unfold lrs_after. destruct (rtotal s' =? rtotal s) eqn:Et; [|intros Hneg; lia].
+    apply (keep_LInv S s s' lrs HL). apply (rd_slice_keep n s d e s' HI E). lia.
+  - (* 2 *) destruct (rd_byte s) as [[c e] s1]. intros H; inversion H; subst. intros Hneg; lia.
+  - (* 1 *) destruct (n <? 0) eqn:En; [discriminate|].
+    destruct (rd_read n s) as [[d e] s1] eqn:E. intros H; inversion H; subst.
+    unfold lrs_after. destruct (rtotal s' =? rtotal s) eqn:Et; [|intros Hneg; lia].
+    apply (keep_LInv S s s' lrs HL). apply (rd_read_keep n s d e s' HI ltac:(lia) E). lia.
+Qed.
+
+Lemma unrune_shape op : no_unrune op = false -> exists l, op = VL (VZ 11 :: l).
+Proof.
+  unfold no_unrune. destruct op as [z|b|l]; try discriminate. destruct l as [|[t| |] l]; try discriminate.
+  intros H. assert (t = 11) by lia. subst. exists l. reflexivity.
+Qed.
+
 Lemma Forall_skipn_own {A} (P : A -> Prop) n (l : list A) : Forall P l -> Forall P (skipn n l).
 Proof. intros H. rewrite <- (firstn_skipn n l) in H. apply Forall_app in H. apply H. Qed.
 
@@ -350,60 +395,70 @@ Proof.
   - unfold LastOK. cbn [rlast]. lia.
 Qed.
 
-Lemma reader_run_ok wt : forall ops S s lrs obs, Forall (fun b => 0 <= b) S -> InvS S s ->
-  forallb no_unrune ops = true -> reader_run wt ops (s, lrs) = Some obs ->
+Lemma reader_run_ok wt : forall ops S s lrs obs, Forall (fun b => 0 <= b) S -> InvS S s -> LInv S s lrs ->
+  reader_run wt ops (s, lrs) = Some obs ->
   prop_reader S (rtotal s) ops obs = true.
 Proof.
-  induction ops as [|op ops IH]; intros S s lrs obs Swf HS Hrf; cbn [reader_run].
+  induction ops as [|op ops IH]; intros S s lrs obs Swf HS HL; cbn [reader_run].
   - intros E; inversion E; subst. reflexivity.
-  - cbn [forallb] in Hrf. apply andb_true_iff in Hrf. destruct Hrf as [Hr1 Hr2].
-    destruct (is_reset op) eqn:Eres.
+  - destruct (is_reset op) eqn:Eres.
     + apply is_reset_true in Eres. subst op. cbn [reader_step].
       destruct (rd_reset_S S s HS) as [HS1 Hb]. unfold rd_reset in *. cbn [snd] in HS1.
       destruct (reader_run wt ops (_, -1)) as [os|] eqn:Er; [|discriminate].
       intros E; inversion E; subst. cbn [prop_reader is_reset]. unfold robs, buffered. cbn [rtotal rpulled rr rw].
-      pose proof (IH _ _ _ _ (Forall_skipn_own _ _ _ Swf) HS1 Hr2 Er) as Hrec. cbn [rtotal] in Hrec. rewrite Hrec.
+      assert (HL1 : LInv (skipn (Z.to_nat (rpulled s)) S) (mkR (rbuf s) 0 0 0 (-1) 0 (rsrc s) 0) (-1)) by (intros Hneg; lia).
+      pose proof (IH _ _ _ _ (Forall_skipn_own _ _ _ Swf) HS1 HL1 Er) as Hrec. cbn [rtotal] in Hrec. rewrite Hrec.
       cbn. lia.
-    + destruct (reader_step wt op (s, lrs)) as [[o [s1 l1]]|] eqn:Es; [|discriminate].
-      destruct (reader_step_ok S Swf wt op s lrs o s1 l1 HS Hr1 Eres Es) as [HS1 [ret [Ho Hok]]].
-      destruct (reader_run wt ops (s1, l1)) as [os|] eqn:Er; [|discriminate].
-      intros E; inversion E; subst. cbn [prop_reader]. rewrite Eres.
-      destruct (pulled_bound S s1 HS1) as (Hp & Ht0 & Hb & Ht).
-      replace (rpulled s1 - buffered s1) with (rtotal s1) by lia.
-      rewrite Hok, (IH S s1 l1 os Swf HS1 Hr2 Er). lia.
+    + destruct (no_unrune op) eqn:Enu.
+      * destruct (reader_step wt op (s, lrs)) as [[o [s1 l1]]|] eqn:Es; [|discriminate].
+        destruct (reader_step_ok S Swf wt op s lrs o s1 l1 HS Enu Eres Es) as [HS1 [ret [Ho Hok]]].
+        pose proof (reader_step_L S wt op s lrs o s1 l1 HS HL Enu Eres Es) as HL1.
+        destruct (reader_run wt ops (s1, l1)) as [os|] eqn:Er; [|discriminate].
+        intros E; inversion E; subst. cbn [prop_reader]. rewrite Eres.
+        destruct (pulled_bound S s1 HS1) as (Hp & Ht0 & Hb & Ht).
+        replace (rpulled s1 - buffered s1) with (rtotal s1) by lia.
+        rewrite Hok, (IH S s1 l1 os Swf HS1 HL1 Er). lia.
+      * destruct (unrune_shape op Enu) as [l ->]. destruct l as [|v l]; [|cbn [reader_step]; discriminate].
+        cbn [reader_step].
+        destruct (rd_unread_rune s lrs) as [[e s1] l1] eqn:Eu.
+        destruct (rd_unread_rune_S S s lrs e s1 l1 HS HL Eu) as (HS1 & HL1 & Hlaw).
+        destruct (reader_run wt ops (s1, l1)) as [os|] eqn:Er; [|discriminate].
+        intros E; inversion E; subst. cbn [prop_reader is_reset]. unfold robs.
+        destruct (pulled_bound S s1 HS1) as (Hp & Ht0 & Hb & Ht).
+        replace (rpulled s1 - buffered s1) with (rtotal s1) by lia.
+        rewrite (IH S s1 l1 os Swf HS1 HL1 Er). cbn [reader_op_ok].
+        destruct (e =? 0); lia.
 Qed.
 
 Definition wf_rop (op : val) : bool :=
   match op with
   | VL [VZ 1; VZ n] => 0 <=? n
-  | VL [VZ 2] | VL [VZ 3] | VL [VZ 5] | VL [VZ 9] | VL [VZ 10] | VL [VZ 12] => true
+  | VL [VZ 2] | VL [VZ 3] | VL [VZ 5] | VL [VZ 9] | VL [VZ 10] | VL [VZ 11] | VL [VZ 12] => true
   | VL [VZ 4; VZ _] | VL [VZ 6; VZ _] | VL [VZ 8; VZ _] => true
   | _ => false
   end.
 
-Lemma wf_rop_step wt op st : wf_rop op = true -> no_unrune op = true /\ exists o st', reader_step wt op st = Some (o, st').
+Lemma wf_rop_step wt op st : wf_rop op = true -> exists o st', reader_step wt op st = Some (o, st').
 Proof.
-  destruct st as [s lrs]. unfold wf_rop, no_unrune, reader_step.
+  destruct st as [s lrs]. unfold wf_rop, reader_step.
   destruct op as [z|b|l]; try discriminate.
   destruct l as [|[tag| |] l]; try discriminate.
   destruct tag as [|p|p]; try discriminate.
   repeat (destruct p as [p|p|]; try discriminate).
   all: destruct l as [|[n| |] [|? ?]]; try discriminate.
-  all: intros Hwf; split; [reflexivity|].
+  all: intros Hwf.
   all: try (assert (n <? 0 = false) as -> by lia).
   all: try destruct wt.
   all: repeat match goal with |- context [let '(_, _) := ?x in _] => destruct x end.
   all: eexists; eexists; reflexivity.
 Qed.
 
-Lemma wf_rops_run wt : forall ops st, forallb wf_rop ops = true ->
-  forallb no_unrune ops = true /\ exists obs, reader_run wt ops st = Some obs.
+Lemma wf_rops_run wt : forall ops st, forallb wf_rop ops = true -> exists obs, reader_run wt ops st = Some obs.
 Proof.
-  induction ops as [|op ops IH]; intros st H; cbn [forallb reader_run] in *.
-  - split; [reflexivity|eexists; reflexivity].
-  - apply andb_true_iff in H. destruct H as [H1 H2].
-    destruct (wf_rop_step wt op st H1) as [Hr [o [st' Hs]]]. rewrite Hs, Hr.
-    destruct (IH st' H2) as [Hr2 [obs Ho]]. rewrite Ho, Hr2. split; [reflexivity|eexists; reflexivity].
+  induction ops as [|op ops IH]; intros st H; cbn [forallb reader_run] in *; [eexists; reflexivity|].
+  apply andb_true_iff in H. destruct H as [H1 H2].
+  destruct (wf_rop_step wt op st H1) as [o [st' Hs]]. rewrite Hs.
+  destruct (IH st' H2) as [obs Ho]. rewrite Ho. eexists; reflexivity.
 Qed.
 
 (* ---------- writer: the sink only grows ---------- *)
@@ -672,10 +727,11 @@ Proof.
   destruct ((tag =? 1) || (tag =? 3)) eqn:E1.
   - destruct (dec_script src) as [sc|] eqn:Ed; [|discriminate].
     apply andb_true_iff in Hwf. destruct Hwf as [Hb Hops].
-    destruct (wf_rops_run (tag =? 3) ops (new_reader cap sc, -1) Hops) as [Hrf [obs Hrun]].
+    destruct (wf_rops_run (tag =? 3) ops (new_reader cap sc, -1) Hops) as [obs Hrun].
     rewrite Hrun.
+    assert (HL0 : LInv (script_stream sc) (new_reader cap sc) (-1)) by (intros Hneg; lia).
     exact (reader_run_ok (tag =? 3) ops (script_stream sc) (new_reader cap sc) (-1) obs (stream_nonneg sc Hb)
-             (new_reader_invS cap sc) Hrf Hrun).
+             (new_reader_invS cap sc) HL0 Hrun).
   - destruct ((tag =? 2) || (tag =? 4)) eqn:E2; [|discriminate].
     destruct (dec_sink src) as [sk|] eqn:Ed; [|discriminate].
     destruct (wf_wops_run (tag =? 4) ops (new_writer cap sk) Hwf) as [obs Hrun].
